@@ -88,10 +88,23 @@ class Indentation(afmformats.AFMForceDistance):
             self._rating = None
             # Apply preprocessing
             # (This will call `AFMData.reset_data` on self)
-            details = preproc.apply(apret=self,
-                                    identifiers=preprocessing,
-                                    options=options,
-                                    ret_details=ret_details)
+            try:
+                details = preproc.apply(apret=self,
+                                        identifiers=preprocessing,
+                                        options=options,
+                                        ret_details=ret_details)
+            except BaseException:
+                # The request was rejected (unknown step, missing
+                # prerequisite, invalid option). Do not remember it as
+                # applied (a repeated call would be skipped); return to
+                # the unprocessed raw data instead of a half-way state.
+                fp.pop("preprocessing")
+                fp.pop("preprocessing_options")
+                self.reset_data()
+                self.preprocessing = []
+                self.preprocessing_options = {}
+                self._preprocessing_details = {}
+                raise
             self._preprocessing_details = details
             # Check availability of axes
             for ax in ["x_axis", "y_axis"]:
